@@ -103,7 +103,7 @@ func runC01(ctx *vh.Ctx) error {
 	}
 	n := ctx.N(2500, 60000)
 	for i := 0; i < n && ctx.TimeLeft(); i++ {
-		o := gcase.GenOpts{Mode: "pregel", MaxNodes: 7, Depth: 2, Cycles: true, FailPct: 4, BranchPct: 25, NegLimitPct: 4}
+		o := gcase.GenOpts{Mode: "pregel", MaxNodes: 7, Depth: 2, Cycles: true, FailPct: 4, BranchPct: 25, NegLimitPct: 4, CompileCBPct: 25}
 		if ctx.Thorough() {
 			o.MaxNodes = 12
 		}
